@@ -102,16 +102,28 @@ class World:
 
         self.loop.create_connection = create_connection
 
+    def respell(self, host):
+        """Host names are case-insensitive: whoever operates on the pin store (a trust / revoke command, an import file) may
+        capitalise them any way - it is the same host that connections are made to."""
+        self.nstore = getattr(self, "nstore", 0) + 1
+        return [host, host.upper(), host.capitalize(), host][self.nstore % 4]
+
     def pins(self):
         if self.db0 is None:
             return {h: "none" for h in self.hps}
-        rows = {"%s:%s" % (r["hostname"], r["port"]): r["fingerprint"] for r in self.db0.list_hosts()}
+        # host names are case-insensitive: a pin is the pin of its host however the name was capitalised when it was stored
+        rows, clash = {}, []
+        for r in self.db0.list_hosts():
+            key = "%s:%s" % (str(r["hostname"]).lower(), r["port"])
+            if key in rows:
+                clash.append(key + " (stored twice, in two capitalisations)")
+            rows[key] = r["fingerprint"]
         out = {}
         for h in self.hps:
             fp = rows.pop(h, None)
             out[h] = FP_INV.get(fp, "other:" + str(fp)) if fp else "none"
-        if rows:
-            out["_extra_rows"] = sorted(rows)
+        if rows or clash:
+            out["_extra_rows"] = sorted(rows) + clash
         return out
 
     def call(self, coro):
@@ -214,10 +226,10 @@ class World:
             self.presents[act[1]] = act[2]
         elif kind == "Trust":
             host, port = split_hp(act[1])
-            db.trust(host, port, x509.load_der_x509_certificate(DER[act[2]]))
+            db.trust(self.respell(host), port, x509.load_der_x509_certificate(DER[act[2]]))
         elif kind == "Revoke":
             host, port = split_hp(act[1])
-            db.revoke(host, port)
+            db.revoke(self.respell(host), port)
         elif kind == "Clear":
             db.clear()
         elif kind in ("ImportMerge", "ImportReplace", "ImportUpdate"):
@@ -226,7 +238,7 @@ class World:
             from pathlib import Path
             p = os.path.join(self.dir, "imp.toml")
             with open(p, "wb") as f:
-                tomli_w.dump({"hosts": {"k": {"hostname": host, "port": port, "fingerprint": FP[act[2]],
+                tomli_w.dump({"hosts": {"k": {"hostname": self.respell(host), "port": port, "fingerprint": FP[act[2]],
                                               "first_seen": "2025-01-01T00:00:00+00:00", "last_seen": "2025-01-01T00:00:00+00:00"}}}, f)
             db.import_toml(Path(p), merge=(kind != "ImportReplace"),
                            on_conflict=(lambda *a: True) if kind == "ImportUpdate" else None)
@@ -446,7 +458,7 @@ def random_history_traces(rep, rnd, count, own):
                     c = rnd.choice([x for x in certs + ["unreadable"] if x != w.presents[h]])
                     act = (k, h, c)
                 elif k == "Revoke":
-                    h = rnd.choice([x for x, v in pins.items() if v != "none"])
+                    h = rnd.choice([x for x, v in pins.items() if v != "none" and not x.startswith("_")] or [h])
                     act = (k, h)
                 elif k == "Clear":
                     act = (k,)
